@@ -839,7 +839,7 @@ def strip_upd(t):
     return t
 
 
-def elementwise_sequence(E, val):
+def elementwise_sequence(E, val, allow=None):
     """`val` is a sequence built element by element, in order, from ONE source sequence S:
          S.iter().map(closure).collect()                      -> (S, value of the closure, its element symbol)
          let mut v = Vec::new(); for x in S { v.push(e) }; v  -> (S, e, elem(S))
@@ -852,7 +852,7 @@ def elementwise_sequence(E, val):
             if S is None:
                 return None
             live = [p for p in S["paths"] if p.exit is None]
-            if len(live) != 1 or len(live) != len(S["paths"]) or any(e[0] != "loop" for e in live[0].eff):
+            if len(live) != 1 or len(live) != len(S["paths"]) or any(e[0] != "loop" and not (allow and allow(e)) for e in live[0].eff):
                 return None       # (nested effect-free closures / loops are fine: they only compute the element)
             return m[0], live[0].val, ("elem", m[0], "cl%s" % m[1][1])
         return None
@@ -866,7 +866,7 @@ def elementwise_sequence(E, val):
         paths = S["paths"]
         if len(paths) != 1 or paths[0].exit is not None or paths[0].pc:
             return None
-        eff = [e for e in paths[0].eff if e[0] != "loop"]       # nested loops only build the element
+        eff = [e for e in paths[0].eff if e[0] != "loop" and not (allow and allow(e))]       # nested loops only build the element
         if len(eff) != 1 or eff[0][0] != "push" or eff[0][1] != ("local", name):
             return None
         return S["iter"], eff[0][2], ("elem", S["iter"], lid)
@@ -908,3 +908,33 @@ def row_major_fill(E, val):
                 return it, r[1] + 1
         return None
     return rec(lid, None)
+
+
+def const_nest(E, t):
+    """a nested vector filled with one literal: `vec![vec![lit; b]; a]`, `(0..a).map(|_| ..).collect()`, or a mix
+       -> ([a, b, ..] outermost first, literal term)  or None"""
+    fe = is_call(t, "from_elem", 2)
+    if fe is not None:
+        inner = const_nest(E, fe[0])
+        if inner is None:
+            return None
+        return [fe[1]] + inner[0], inner[1]
+    a = is_call(t, "collect", 1)
+    if a is not None:
+        m = is_call(a[0], "map", 2)
+        if m is None or not (isinstance(m[1], tuple) and m[1] and m[1][0] == "closure"):
+            return None
+        rng = range_of(m[0])
+        S = E.loop_summaries.get("cl%s" % m[1][1])
+        if rng is None or rng[0] != ("lit", "0") or S is None:
+            return None
+        live = [p for p in S["paths"] if p.exit is None]
+        if len(live) != 1 or len(S["paths"]) != 1 or live[0].pc or any(e[0] != "loop" for e in live[0].eff):
+            return None
+        inner = const_nest(E, live[0].val)
+        if inner is None:
+            return None
+        return [rng[1]] + inner[0], inner[1]
+    if isinstance(t, tuple) and t and t[0] == "lit":
+        return [], t
+    return None
